@@ -606,3 +606,13 @@ def c20_literal_sites(tier="quick", seed=0):
             bad = (src, got, want)
     return [ob("C20.bounded.literal-sites", bad is None, "B", f"{2 * len(progs)} programs" if bad is None else f"{bad[0]} -> {bad[1]!r}, expected {bad[2]!r}",
                witness=(bad[0] if bad else None), confirmed=True if bad else None, domain=2 * len(progs))]
+
+
+# ---- fixed probes (regressions of repaired defects; known deviations are listed in /verif/known_findings.json) ---------------
+PROBES_C20 = [
+    ("RegExp-from-regexp", "[new RegExp(/a/g).source, new RegExp(/a/g).flags, new RegExp(/a/g, 'i').flags, new RegExp(/a/g) !== /a/g].join()", "a,g,i,true"),
+    ("missing-argument", "[/undefined/.test(), /undefined/.exec()[0], 'abc'.match(undefined)[0], 'abc'.search(undefined), 'abc'.match()[0]].join('|')", "true|undefined||0|"),
+    ("sticky-string-methods", "['aXbX'.match(/X/y), 'XXaX'.match(/X/gy).join(''), 'aXbX'.replace(/X/y, '-'), 'XXaX'.replace(/X/gy, '-'), 'aXbX'.search(/X/y)].join('|')", "|XX|aXbX|--aX|-1"),
+    ("sticky-lastIndex-moves", "var r = /X/y; r.lastIndex = 1; 'aXbX'.replace(r, '-') + r.lastIndex + ('aXbX'.match(r) === null) + r.lastIndex", "a-bX2true0"),
+]
+groups.register_probes("C20", PROBES_C20)
